@@ -308,7 +308,10 @@ def listing_leg(res, Rec, paths, windows, flagsets):
     """the real handler against the real lsdrf on scratch trees containing the universe paths"""
     import digital_rf
     root = common.scratch_dir()
-    kinds = {"drf": ["drf_properties.h5"], "dmd": ["dmd_properties.h5"], "legacy": ["metadata.h5"]}
+    kinds = {"drf": ["drf_properties.h5"], "dmd": ["dmd_properties.h5"], "legacy": ["metadata.h5"],
+             # the standard layout: RF channels, the metadata channel nested inside one of them
+             "standard": {"/w/ch0": ["drf_properties.h5"], "/w/a/b/ch1": ["drf_properties.h5"],
+                          "/w/ch0/metadata": ["dmd_properties.h5"]}}
     claim_paths = [p for p, c in paths if c]
     data_paths = [p for p in claim_paths if p.rsplit("/", 1)[1] not in L.ALL_PROPS]
     prop_paths = [p for p in claim_paths if p.rsplit("/", 1)[1] in L.ALL_PROPS]
@@ -320,8 +323,15 @@ def listing_leg(res, Rec, paths, windows, flagsets):
         for p in data_paths:
             L.touch(top + p)
         for ch in chans:
-            for pf in props:
+            for pf in (props[ch] if isinstance(props, dict) else props):
                 L.touch(top + ch + "/" + pf)
+
+        def chan_kind(p):
+            """'drf' | 'dmd' | 'legacy': what the channel holding path p is in this tree"""
+            if not isinstance(props, dict):
+                return kind
+            ch = max((c for c in chans if p.startswith(c + "/")), key=len, default=None)
+            return "dmd" if ch and "dmd_properties.h5" in props[ch] else "drf"
         for fl in fsel:
             drf, dmd, _, _ = L.eff_flags(fl)
             ydmd = dmd and kind in ("dmd", "legacy")
@@ -345,12 +355,13 @@ def listing_leg(res, Rec, paths, windows, flagsets):
                         continue
                     pd = L.parse_data(p.rsplit("/", 1)[1])
                     # which kinds does this channel yield? a file of the other kind is not listed there
+                    ck = chan_kind(p)
                     if acc and not lst:
-                        yields = (pd and ((pd[0] == "drf" and drf and kind in ("drf", "legacy")) or
-                                          (pd[0] == "dmd" and dmd and kind in ("dmd", "legacy"))))
+                        yields = (pd and ((pd[0] == "drf" and drf and ck in ("drf", "legacy")) or
+                                          (pd[0] == "dmd" and dmd and ck in ("dmd", "legacy"))))
                         if not yields:
                             continue     # listed in a channel of the other kind (other tree)
-                    if lst and not acc and ydmd and st is not None and pd and pd[1] < st:
+                    if lst and not acc and dmd and ck in ("dmd", "legacy") and st is not None and pd and pd[1] < st:
                         res.count("lsdrf-leg:ffill-aside")
                         continue         # the forward-fill file
                     res.violation("filter-vs-lsdrf-%s" % ("accepts-unlisted" if acc else "drops-listed"),
